@@ -49,7 +49,7 @@ def header(scn):
     links = []
     for u in urls:
         for l in u['links']:
-            links.append([u['id'], l['to'], 1 if (l.get('inline') or l.get('frame')) else 0])
+            links.append([u['id'], l['to'], 1 if (l.get('inline') or l.get('frame') or l.get('css') or u['kind'] == 'css') else 0])
     ors = origins_of(scn)
     rk = []
     for o in ors:
@@ -57,7 +57,8 @@ def header(scn):
     return dict(U=n, H=len(hs), OR=len(ors), start=scn['start'], links=links,
                 host=[hs.index(by[i]['host']) + 1 for i in range(1, n + 1)],
                 origin=[ors.index(origin_label(by[i])) + 1 for i in range(1, n + 1)],
-                kind=[by[i]['kind'] if by[i]['kind'] in ('page', 'redirect') else 'other' for i in range(1, n + 1)],
+                kind=[('page' if by[i]['kind'] == 'css' else by[i]['kind']) if by[i]['kind'] in ('page', 'redirect', 'css') else 'other'
+                      for i in range(1, n + 1)],
                 rto=[by[i].get('rto', 0) for i in range(1, n + 1)],
                 rejected=[by[i]['rejected'] for i in range(1, n + 1)],
                 disallowed=[by[i]['disallowed'] for i in range(1, n + 1)],
@@ -156,6 +157,20 @@ def c01_catalogue(quick):
           U(5), U(6)]
     for rc, pq, lv in ((0, 1, 0), (1, 1, 0), (1, 1, 1), (1, 0, 0)):
         out.append(scenario('frames-R%d-P%d-L%d' % (rc, pq, lv), fr, dict(recursive=rc, pagereq=pq, level=lv), N=1))
+    # the same URL as hyperlink AND embedded object of one page: beyond the depth limit only the object role is in scope
+    dual = [U(1, links=[2]), U(2, links=[3, dict(to=3, inline=1), dict(to=4, inline=1), 4]), U(3), U(4)]
+    out.append(scenario('dual-role-L1-P1', dual, dict(level=1, pagereq=1), N=1))
+    out.append(scenario('dual-role-L1-P0', dual, dict(level=1, pagereq=0), N=1))
+    # a redirect that crosses a directory boundary; the target document uses RELATIVE links
+    rel = [U(1, links=[2]), U(2, path='/old/entry', kind='redirect', rto=3),
+           U(3, path='/new/sec/index.html', links=[dict(to=4, spelling='leaf.html'), dict(to=5, spelling='../up.html'),
+                                                   dict(to=6, spelling='pic.png', inline=1)]),
+           U(4, path='/new/sec/leaf.html'), U(5, path='/new/up.html'), U(6, path='/new/sec/pic.png')]
+    out.append(scenario('redirect-relative-links', rel, dict(pagereq=1), N=1))
+    # requisite chain through stylesheets: page -> stylesheet -> @import -> url()
+    css = [U(1, links=[dict(to=2, css=1, inline=1), 6]), U(2, kind='css', path='/s/a.css', links=[dict(to=3, imp=1), dict(to=4)]),
+           U(3, kind='css', path='/s/b.css', links=[dict(to=5)]), U(4, path='/s/i4.png'), U(5, path='/s/i5.png'), U(6)]
+    out.append(scenario('css-import-chain', css, dict(pagereq=1), N=1))
     # the answer to a page arrives in two parts (head, body) while another worker's redirect is handled in between
     rd2 = [U(1, links=[2, 3, 4]), U(2, kind='redirect', rto=5), U(3, links=[6]), U(4, links=[7]), U(5), U(6), U(7)]
     out.append(scenario('split-answers-redirect-N2', rd2, N=2, split=1))
